@@ -14,7 +14,9 @@ from .universe import Dimension, DimensionSet, FlodymArray
 
 # id, letter, name, size: seven letters, three of them with a second dimension on the same letter (other name, other size)
 ALPHABET = [("A", "a", "dim_a", 2), ("B", "b", "dim_b", 3), ("C", "c", "dim_c", 2), ("D", "d", "dim_d", 1), ("E", "e", "dim_e", 4),
-            ("F", "f", "dim_f", 5), ("G", "g", "dim_g", 7), ("A2", "a", "alt_a", 3), ("B2", "b", "alt_b", 2), ("E2", "e", "alt_e", 6)]
+            ("F", "f", "dim_f", 5), ("G", "g", "dim_g", 7), ("A2", "a", "alt_a", 3), ("B2", "b", "alt_b", 2), ("E2", "e", "alt_e", 6),
+            # two dimensions that carry the NAME of another one under their own letter (only letters are unique in a set)
+            ("H", "h", "dim_a", 3), ("C2", "c", "dim_g", 2)]
 REGS = ["r1", "r2", "r3", "r4"]
 
 
@@ -73,11 +75,13 @@ class Program:
             ev["arr"]["ids"] = ["?shape"]
         self.events.append(ev)
 
+    def key_of(self, s, d):
+        """a key for dimension d of set s: its letter, or its name if no other dimension of s carries that name"""
+        unique = sum(1 for x in s if x.name == d.name) == 1
+        return d.name if (unique and self.rnd.random() < 0.5) else d.letter
+
     def keys_of(self, s, unknown_p=0.1):
-        ks = []
-        for d in s:
-            ks.append(d.letter if self.rnd.random() < 0.5 else d.name)
-        return ks
+        return [self.key_of(s, d) for d in s]
 
     def step(self):
         rnd, regs = self.rnd, self.regs
@@ -126,7 +130,7 @@ class Program:
         elif op == "subset":
             pool = list(s)
             chosen = rnd.sample(pool, rnd.randint(0, len(pool)))
-            keys = [d.letter if rnd.random() < 0.5 else d.name for d in chosen]
+            keys = [self.key_of(s, d) for d in chosen]
             if rnd.random() < 0.08:
                 keys.insert(rnd.randint(0, len(keys)), "zz")
             if not keys:
